@@ -7,6 +7,7 @@ import (
 	"sort"
 	"strings"
 	"sync"
+	"sync/atomic"
 
 	"verif/core"
 
@@ -88,12 +89,12 @@ type memoEntry struct {
 }
 
 type explorer struct {
-	r        *core.Run
-	mu       sync.Mutex
-	confirm  map[string]bool // signature -> already confirmed 5x
-	memo     map[string]*memoEntry
-	harness  []*harness // per worker
-	sampleMu sync.Mutex
+	r       *core.Run
+	mu      sync.Mutex
+	confirm map[string]bool // signature -> already confirmed 5x
+	memo    map[string]*memoEntry
+	harness []*harness // per worker
+	sampleN atomic.Int64
 }
 
 func (x *explorer) hFor(worker int, sc *scenario) *harness {
@@ -1186,10 +1187,8 @@ func (x *explorer) explore(sc *scenario, worker int, par func(n int64, fn func(w
 				if dump != pre {
 					r.NontrivialH(core.HashString(sc.Name + "\x00" + key))
 				}
-				if r.WantSample(t) && fi == 0 {
-					x.sampleMu.Lock()
-					r.Sample(map[string]interface{}{"scenario": sc.Name, "path": pathString(path), "op": op.String(), "state_after": strings.Split(dump, "\n")[0]})
-					x.sampleMu.Unlock()
+				if dump != pre && len(path) > 0 && r.WantSample(x.sampleN.Add(1)) {
+					r.Sample(map[string]interface{}{"scenario": sc.Name, "path": pathString(path), "op": op.String(), "result": "agrees with ref/objmodel", "state_after": strings.Split(dump, "\n")[0]})
 				}
 				hk := hashOf(key + x.refine(sc, append(path[:len(path):len(path)], op)))
 				if _, ok := seen[hk]; !ok {
